@@ -52,6 +52,15 @@ def gen(rng, tier):
         m = mutate_text(rng, text)
         if valid_utf8(m):
             out.append(parse_case(sch, m, rng.choice([128, "default"])))
+    # counters near the limits of narrow integer types: runs of 254..300 `#` around raw strings, 255..257 nested
+    # indexes / escapes / list items, very long identifiers
+    for k in (254, 255, 256, 257, 300, 511, 512):
+        h = "#" * k
+        for t in ('str == r"a"' + h, "str == r" + h + '"a"' + h, "str == r" + h + '"a"' + "#" * (k - 1),
+                  'str == r#"a"' + h + '"#', 'str matches r"a"' + h, 'str wildcard r#"a"' + h,
+                  "str == \"" + "\\x41" * k + "\"", "num in {" + " ".join(["1"] * k) + "}",
+                  "strs" + "[0]" * 2 + " == \"a\"", "x" * k + " == 1", "str == " + ":".join(["41"] * k)):
+            out.append(parse_case(sch, t, "default"))
     # token soups
     for _ in range(n // 2):
         k = rng.randrange(1, 14)
